@@ -91,12 +91,24 @@ turn that into `no_chord_activations!` -/
 def pushActive (active : List ActiveChord) (ach : ActiveChord) : Except Crash (List ActiveChord) :=
   if active.length < ACTIVE_CHORDS_CAP then .ok (active ++ [ach]) else .error (.indexOOB "active chords has room")
 
-/-- `SmolQueue::push_back` (Wrapping, overflow ignored) -/
+/-- the 16-slot hand-over queue of the code before the hand-over repair (`SmolQueue::push_back`,
+Wrapping, overflow ignored); only Model/ChordsV2Pinned.lean uses it -/
 def smolPush (q : List Queued) (x : Queued) : List Queued := (pushBackWrap SMOL_Q_LEN q x).1
 
-/-- `SmolQueue::push_back` followed by `assert!(overflow.is_none(), "oops overflowed drain queue")` -/
-def smolPushAssert (q : List Queued) (x : Queued) : Except Crash (List Queued) :=
-  if q.length < SMOL_Q_LEN then .ok (q ++ [x]) else .error (.indexOOB "oops overflowed drain queue")
+/-- capacity of `DrainQueue`, what one tick hands over to the layout queue: the whole input queue
+(32), a release per active chord (10), the two tap-hold trigger events -/
+abbrev DRAIN_Q_LEN : Nat := 48
+
+/-- `DrainQueue::push_back` (Wrapping, overflow ignored) -/
+def drainPush (q : List Queued) (x : Queued) : List Queued := (pushBackWrap DRAIN_Q_LEN q x).1
+
+/-- `DrainQueue::push_back` followed by `assert!(overflow.is_none(), "oops overflowed drain queue")` -/
+def drainPushAssert (q : List Queued) (x : Queued) : Except Crash (List Queued) :=
+  if q.length < DRAIN_Q_LEN then .ok (q ++ [x]) else .error (.indexOOB "oops overflowed drain queue")
+
+/-- `drainq.extend(queue.drain(0..))`: `Extend` for a Wrapping ArrayDeque takes only as many
+elements as there is room for; the rest of the drained queue is dropped -/
+def drainExtend (dq q : List Queued) : List Queued := dq ++ q.take (DRAIN_Q_LEN - dq.length)
 
 /-- the chord's key set equals the accumulated presses (both inclusions, as the code checks them) -/
 def exactMatch (acc : List Nat) (pch : ChordV2) : Bool :=
@@ -122,7 +134,7 @@ def drainVirtualKeys : List Queued → List Queued → Except Crash (List Queued
       | .error c => .error c
       | .ok (k, dq) => .ok (qd :: k, dq)
     else
-      match smolPushAssert dq qd with
+      match drainPushAssert dq qd with
       | .error c => .error c
       | .ok dq => drainVirtualKeys rest dq
 
@@ -148,20 +160,20 @@ def applyReleases (q : List Queued) (achs : List ActiveChord) : List ActiveChord
     | .press _ => achs) achs
 
 /-- `ChordsV2::drain_releases`; `npresses` = presses seen so far (a heapless Vec of 16 whose overflow
-is a `debug_assert`) -/
+is ignored - only its emptiness is read; before fix 'chords v2 press lists' the overflow was a
+`debug_assert`) -/
 def drainReleases : List Queued → Nat → List ActiveChord → List Queued →
     Except Crash (List Queued × List ActiveChord × List Queued)
   | [], _, achs, dq => .ok ([], achs, dq)
   | qd :: rest, np, achs, dq =>
     match qd.ev with
     | .press _ =>
-      if np ≥ SMOL_Q_LEN then .error (.indexOOB "drain_releases: presses overflow") else
       match drainReleases rest (np + 1) achs dq with
       | .error c => .error c
       | .ok (k, achs, dq) => .ok (qd :: k, achs, dq)
     | .release c =>
       let achs := releaseKeyInActive achs c.2
-      if np == 0 then drainReleases rest np achs (smolPush dq qd)
+      if np == 0 then drainReleases rest np achs (drainPush dq qd)
       else
         match drainReleases rest np achs dq with
         | .error c => .error c
@@ -174,7 +186,8 @@ def collectPresses : List Queued → List Nat → Except Crash (List Nat × Bool
   | qd :: rest, ps =>
     match qd.ev with
     | .press c =>
-      if ps.length ≥ SMOL_Q_LEN then .error (.indexOOB "too many presses in queue") else collectPresses rest (ps ++ [c.2])
+      -- presses beyond the 16 slots of the heapless Vec are not recorded (a `debug_assert` before the fix)
+      if ps.length ≥ SMOL_Q_LEN then collectPresses rest ps else collectPresses rest (ps ++ [c.2])
     | .release c => if ps.contains c.2 then .ok (ps, true) else collectPresses rest ps
 
 /-- loop state of `process_presses` -/
@@ -290,7 +303,7 @@ def processPresses (s : ChV2) (layer : Nat) : Except Crash ChV2 :=
 /-- `ChordsV2::drain_inputs` -/
 def drainInputs (s : ChV2) (dq : List Queued) (layer : Nat) : Except Crash (ChV2 × List Queued) :=
   if s.ticksToIgnore > 0 then
-    .ok ({ s with queue := [], active := applyReleases s.queue s.active }, s.queue.foldl smolPush dq)
+    .ok ({ s with queue := [], active := applyReleases s.queue s.active }, drainExtend dq s.queue)
   else if s.ticksUntilChange > 0 && s.prevActiveLayer == layer && s.prevQueueLen == s.queue.length then
     .ok ({ s with ticksUntilChange := s.ticksUntilChange - 1 }, dq)
   else
@@ -310,7 +323,7 @@ def clearReleased : List ActiveChord → List Queued → Except Crash (List Acti
   | [], dq => .ok ([], dq)
   | a :: rest, dq =>
     if a.status == .released then
-      match smolPushAssert dq ⟨.release (0, a.coordinate), 0⟩ with
+      match drainPushAssert dq ⟨.release (0, a.coordinate), 0⟩ with
       | .error c => .error c
       | .ok dq => clearReleased rest dq
     else
@@ -326,9 +339,9 @@ def tickChv2 (s : ChV2) (layer : Nat) : Except Crash (ChV2 × List Queued) :=
   match drainInputs s [] layer with
   | .error c => .error c
   | .ok (s, dq) =>
-    let dq := if s.active.length != prevLen then smolPush dq ⟨.press (0, 0), 0⟩ else dq
+    let dq := if s.active.length != prevLen then drainPush dq ⟨.press (0, 0), 0⟩ else dq
     let dq := if s.active.any (fun a => a.status == .unreadReleased || a.status == .released) then
-        smolPush dq ⟨.release (0, 0), 0⟩ else dq
+        drainPush dq ⟨.release (0, 0), 0⟩ else dq
     match clearReleased s.active dq with
     | .error c => .error c
     | .ok (achs, dq) => .ok ({ s with active := achs, ticksToIgnore := s.ticksToIgnore - 1 }, dq)
@@ -364,6 +377,29 @@ def LayoutV2.event (s : LayoutV2) (ev : Ev) : Except Crash LayoutV2 :=
         | .error c => .error c
         | .ok (lay, _) => .ok { lay, chv2 := some ch }
 
+/-- one handed-over event pushed onto the layout queue; a full queue is handled as in `Layout::event`:
+the waiting keys are forced to hold and the oldest event is processed at once -/
+def pushQueuedOv (lay : Layout) (x : Queued) : Except Crash Layout :=
+  let (q, ov) := pushBackWrap QUEUE_SIZE lay.queue x
+  let lay := { lay with queue := q }
+  match ov with
+  | none => .ok lay
+  | some overflow =>
+    match flushWaitings FUEL lay (none :: (List.range EXTRA_WAITING_LEN).map some) with
+    | .error c => .error c
+    | .ok lay =>
+      match dequeue FUEL lay overflow with
+      | .error c => .error c
+      | .ok (lay, _) => .ok lay
+
+/-- the loop of `Layout::tick` that forwards what `tick_chv2` drained -/
+def handOver (lay : Layout) : List Queued → Except Crash Layout
+  | [] => .ok lay
+  | x :: rest =>
+    match pushQueuedOv lay x with
+    | .error c => .error c
+    | .ok lay => handOver lay rest
+
 /-- the chords-v2 prologue of `Layout::tick` -/
 def tickV2Pre (s : LayoutV2) : Except Crash LayoutV2 :=
   match s.chv2 with
@@ -372,15 +408,17 @@ def tickV2Pre (s : LayoutV2) : Except Crash LayoutV2 :=
     match tickChv2 ch s.lay.currentLayer with
     | .error c => .error c
     | .ok (ch, dq) =>
-      let lay := { s.lay with queue := dq.foldl (fun q x => (pushBackWrap QUEUE_SIZE q x).1) s.lay.queue }
       let (achs, act) := getActionChv2 ch.active
       let ch := { ch with active := achs }
-      match act with
-      | some a =>
-        .ok { lay := { lay with actionQueue := (pushBackWrap ACTION_QUEUE_LEN lay.actionQueue a).1,
-                                oneshot := { lay.oneshot with pauseInputProcessingTicks := lay.oneshot.pauseInputProcessingDelay } },
-              chv2 := some ch }
-      | none => .ok { lay, chv2 := some ch }
+      match handOver s.lay dq with
+      | .error c => .error c
+      | .ok lay =>
+        match act with
+        | some a =>
+          .ok { lay := { lay with actionQueue := (pushBackWrap ACTION_QUEUE_LEN lay.actionQueue a).1,
+                                  oneshot := { lay.oneshot with pauseInputProcessingTicks := lay.oneshot.pauseInputProcessingDelay } },
+                chv2 := some ch }
+        | none => .ok { lay, chv2 := some ch }
 
 /-- `Layout::tick` with chords v2 -/
 def LayoutV2.tick (s : LayoutV2) : Except Crash (LayoutV2 × CustomEv) :=
